@@ -711,7 +711,7 @@ class Check(common.Check):
                 elif m == 'bnorm':
                     ops.append(f'bnorm {u} {self.gen_num(rng)} {rng.choice("TF")}')
                 elif m == 'bcopy':
-                    ops.append(f'bcopy {u} u{rng.randrange(st["buf"])} i{rng.randint(0, 4)} i{rng.randint(0, 4)} i{rng.choice([-1, 4])}')
+                    ops.append(f'bcopy {u} u{rng.randrange(st["buf"])} i{rng.randint(0, 4)} i{rng.randint(5, 9)} i{rng.choice([-1, 4, 7])}')
                 ops[-1] = ops[-1].rstrip()
         while st['depth'] and rng.random() < 0.8:
             ops.append('end'); st['depth'] -= 1
@@ -995,6 +995,15 @@ class Check(common.Check):
                 if len(ts) < 4 or ts[3] != f'i{fl}':
                     return {'what': f'op #{i} `{line}`: flags normalize/wavetable/clear = {w[-3:]} are {fl} '
                                     f'(1 + 2 + 4), sent `{" ".join(ts[:4])}`', 'signature': 'bgen:flags', 'index': i}
+            # -- copy_data: /b_gen dst 'copy' dst_start src src_start num_samples (command reference)
+            if op == 'bcopy' and tst.startswith('ok') and tmsgs:
+                w = line.split()
+                hs, hd = int(w[1][1:]), int(w[2][1:])
+                if hs < len(handles_buf) and hd < len(handles_buf) and None not in (handles_buf[hs], handles_buf[hd]):
+                    want = f'/b_gen i{handles_buf[hd]} scopy {w[3]} i{handles_buf[hs]} {w[4]} {w[5]}'
+                    if tmsgs != [want]:
+                        return {'what': f'op #{i} `{line}` must emit `{want}`, emitted {tmsgs}',
+                                'signature': 'positions:bcopy', 'index': i}
             # -- release: forced release of `t` seconds is gate = -(t + 1) (EnvGen reference), <= 0: -1, None: 0
             if op == 'release' and tst.startswith('ok') and tmsgs:
                 from fractions import Fraction
